@@ -7,6 +7,7 @@ import (
 	"os"
 	"path/filepath"
 	"regexp"
+	"runtime/debug"
 	"sort"
 	"strings"
 
@@ -118,7 +119,7 @@ func takeSnap(prev snap, d dirs) snap {
 			return nil
 		})
 		if err != nil && !os.IsNotExist(err) {
-			panic(fmt.Sprintf("harness: snapshot of %s: %v", root, err))
+			panic(harnessErr(fmt.Sprintf("snapshot of %s: %v", root, err)))
 		}
 	}
 	walk("out", d.out)
@@ -213,6 +214,8 @@ type recording struct {
 	nBsdiff int
 	nMsgs   int
 	sig     string
+
+	panicSite, panicMsg, panicStack string
 }
 
 func physTag(cfg Config) string {
@@ -365,7 +368,7 @@ func (e *env) tmp() string {
 func (e *env) record(cfg Config) *recording {
 	pd := pairByName(cfg.Pair)
 	if pd == nil {
-		panic("harness: unknown pair " + cfg.Pair)
+		panic(harnessErr("unknown pair " + cfg.Pair))
 	}
 	oldDir, newDir := e.buildDirs(pd)
 	rec := &recording{cfg: cfg, oldDir: oldDir, newDir: newDir}
@@ -409,7 +412,7 @@ func (e *env) record(cfg Config) *recording {
 	defer os.RemoveAll(base)
 	d, err := startDirs(cfg, oldDir, base)
 	if err != nil {
-		panic(fmt.Sprintf("harness: %v", err))
+		panic(harnessErr(err.Error()))
 	}
 	cur := ""
 	s, phase, err := openSession(cfg, rec.patch, oldDir, d, func(l string) { cur = l })
@@ -471,8 +474,14 @@ func (e *env) record(cfg Config) *recording {
 // ---------------------------------------------------------------------------
 // builds and patches (cached per worker)
 
+// harnessErr is panicked with when the harness itself cannot do its job (no
+// space on the scratch file system, a build cannot be diffed, ...). It is never
+// turned into a violation: the sub-check is marked skipped (exhaustive:false).
+type harnessErr string
+
 type env struct {
 	w       *runner.W
+	onHarn  func(kind, msg string)
 	root    string
 	seq     int
 	bdirs   map[string][2]string
@@ -492,10 +501,10 @@ func (e *env) buildDirs(pd *pairDef) (string, string) {
 	o := filepath.Join(e.root, "builds", pd.Name, "old")
 	n := filepath.Join(e.root, "builds", pd.Name, "new")
 	if err := pd.Old.Materialize(o, e.w.Seed); err != nil {
-		panic(fmt.Sprintf("harness: %v", err))
+		panic(harnessErr(err.Error()))
 	}
 	if err := pd.New.Materialize(n, e.w.Seed); err != nil {
-		panic(fmt.Sprintf("harness: %v", err))
+		panic(harnessErr(err.Error()))
 	}
 	e.bdirs[pd.Name] = [2]string{o, n}
 	return o, n
@@ -511,14 +520,14 @@ func (e *env) patchFor(pd *pairDef, cfg Config) []byte {
 	if cfg.Series == "rsync" {
 		dr, err := wh.Diff(oldDir, newDir, cfg.Comp)
 		if err != nil {
-			panic(fmt.Sprintf("harness: diff %s: %v", cfg, err))
+			panic(harnessErr(fmt.Sprintf("diff %s: %v", cfg, err)))
 		}
 		patch = dr.Patch
 	} else {
 		base := e.patchFor(pd, Config{Series: "rsync", Comp: "none", Pair: pd.Name})
 		opt, _, err := wh.Rediff(base, oldDir, newDir, wh.RediffParams{Partitions: 2, Comp: cfg.Comp})
 		if err != nil {
-			panic(fmt.Sprintf("harness: rediff %s: %v", cfg, err))
+			panic(harnessErr(fmt.Sprintf("rediff %s: %v", cfg, err)))
 		}
 		patch = opt
 	}
@@ -531,9 +540,25 @@ func (e *env) recording(cfg Config) *recording {
 		return e.lastRec
 	}
 	e.lastRec = nil // let the previous one go before building the next
-	r := e.record(cfg)
+	r := e.recordGuarded(cfg)
 	e.lastCfg, e.lastRec = cfg, r
 	return r
+}
+
+// recordGuarded turns a panic of wharf during the reference or recording run
+// into a finding of the recording sub-check (harness failures pass through).
+func (e *env) recordGuarded(cfg Config) (rec *recording) {
+	defer func() {
+		if x := recover(); x != nil {
+			if _, ok := x.(harnessErr); ok {
+				panic(x)
+			}
+			stack := string(debug.Stack())
+			rec = &recording{cfg: cfg, panicSite: runner.PanicSite(stack), panicMsg: fmt.Sprintf("%v", x), panicStack: stack}
+			rec.runErr = fmt.Errorf("panic: %v", x)
+		}
+	}()
+	return e.record(cfg)
 }
 
 // ---------------------------------------------------------------------------
